@@ -14,7 +14,8 @@ CONTRACTS = []       # callables engine -> {key: callee-side contract}
 
 
 def fn(ex):
-    return ex.task.label.split(':')[-1]
+    import re
+    return re.sub(r'\{(=[^}]*|other)\}$', '', ex.task.label.split(':')[-1])
 
 
 def setup_cur_state(ex, below_limit=True):
@@ -71,6 +72,21 @@ def plain_pack(ex, name):
     ex.assume(z3.Not(L.node_owned(r)))
     ex.assume(ex.heap.llen(r) <= CAP)
     return L.TupleV(r)
+
+
+def split_cases(task_factory, label, literals, selector):
+    """exhaustive case split of one task on a string-valued symbol: one task per literal + one for the rest"""
+    import copy
+    out = []
+    for lit in list(literals) + [None]:
+        t = task_factory()
+        t.label = '%s{%s}' % (t.label, ('=' + lit) if lit is not None else 'other')
+        if lit is not None:
+            t.case = (lambda ex, ctx, lit=lit: selector(ex, ctx) == ex.str_lit(lit))
+        else:
+            t.case = (lambda ex, ctx: z3.And([selector(ex, ctx) != ex.str_lit(l) for l in literals]))
+        out.append(t)
+    return out
 
 
 class FnContract:
